@@ -83,7 +83,7 @@ PlanOf(p) ==
                     \cup TangentCells({"tplus"}, <<"generic">>, <<"1", "1e6">>, 1)
     [] p = "C06" -> TangentCells({"jacs", "adjexp"}, ThetaIn, LinJ, 0) \cup Sweep({"jacs"}, 0)
                     \cup ElementCells({"adj"}, ThetaElem, LinAll, <<"generic">>, <<"1">>, 0)
-    [] p = "C15" -> { Cell("interp", key, ThetaElem[i], Cyc(<<"zero", "1", "1e3">>, i + j), meth, pk, Cyc(<<"generic", "mid_hi", "near_pi">>, i + j), "1", v) :
+    [] p = "C15" -> { Cell("interp", key, ThetaElem[i], Cyc(<<"zero", "1", "1e3">>, i + j), meth, pk, Cyc(<<"generic", "mid_hi", "near_pi", "small", "zero">>, i + j), "1", v) :
                         key \in Range(GroupsQ), i \in {1, 3, 9, 10}, j \in 1..2, v \in {0, 1},
                         meth \in {"SLERP", "CUBIC", "CNSMOOTH"}, pk \in {"zero", "one", "random", "dyadic", "near0", "near1", "below", "above", "nan"} }
                     \cup { Cell("phi", key, k, "-", "-", "-", "-", "-", 0) : key \in {"SE3_d", "SE3_f"}, k \in {"grid", "random"} }
